@@ -289,6 +289,32 @@ func ruleCL3(c *Ctx) *rule {
 				}
 			}
 		}
+		// (3) the validate-all pass written as a search: "no element of the list satisfies <refuse>", where every way <refuse>
+		// returns false has passed a test relating its argument to the root
+		if found == "" && list != nil {
+			for _, g := range fi.necessaryGuards(s.site.Block()) {
+				coll, pred, hit, isSearch := searchTest(g.cond, g.pol)
+				if !isSearch || hit || !sameOrigins(coll, list) || len(pred.Params) != 1 {
+					continue
+				}
+				sets := c.resultGuardSets(pred, false)
+				all := len(sets) > 0
+				for _, set := range sets {
+					one := false
+					for _, pg := range set {
+						if c.relatesToRoot(pg.cond, []ssa.Value{pred.Params[0]}) {
+							one = true
+						}
+					}
+					if !one {
+						all = false
+					}
+				}
+				if all {
+					found = "validated by a search over the whole list before anything is removed (no element satisfies " + fname(pred) + ")"
+				}
+			}
+		}
 		if found != "" {
 			r.ok(key, c.ipos(s.site), found)
 		} else {
@@ -1511,6 +1537,7 @@ func ruleRT1(c *Ctx) *rule {
 				for _, in := range b.Instrs {
 					if ia, ok := in.(*ssa.IndexAddr); ok && ia.X == results && fi.innermostLoop(b) == l {
 						loop = l
+						elem = ia // (`r := &results[i]`: the element is used through its address)
 						for _, ref := range valueReferrers(ia) {
 							if u, ok := ref.(*ssa.UnOp); ok && u.Op == token.MUL {
 								elem = u
